@@ -265,7 +265,7 @@ def make_jobs(ctx):
     for mi, (name, _) in enumerate(M.C01_MODELS):
         for opt in option_lattice(ctx.thorough):
             if ctx.thorough:
-                plan = [("A", ("copyData", "copyState"), 3), ("A", ("getset",), 2), ("B", tuple(E.TRANSFERS), 2)]
+                plan = [("A", tuple(E.TRANSFERS), 3), ("B", tuple(E.TRANSFERS), 2)]
             else:
                 plan = [("A", tuple(E.TRANSFERS), 2)]
                 if name in B_MODELS:
@@ -297,7 +297,7 @@ def run(ctx):
                 "non-state mjData field, i.e. leftovers of another history were really present. "
                 "states = distinct hashes of all compared mjData fields of donor/receiver after the transfer and after each call."
                 % ("the full product" if ctx.thorough else "an orthogonal array",
-                   ctx.q("2", "3 (donor A, copyData/copyState) and 2 (getState->setState, donor B)"), E.CALLS))
+                   ctx.q("2 (donor B only for the sleep model)", "3 (donor A) / 2 (donor B)"), E.CALLS))
     ctx.assumptions = [
         "qacc is copied before a leading mj_inverse (documented input of inverse dynamics)",
         "mj_forwardSkip only after a forward-type call computed the skipped stages on that mjData (R1, counted)",
